@@ -238,15 +238,16 @@ pub fn run_c12(out: &mut Out, rng: &mut Rng, thorough: bool, only: Option<&str>,
         if v.ck_len() == 1 {
             let sizes: Vec<usize> = if thorough { vec![MIB - 1, MIB, MIB + 1, 3 * MIB + 7] } else { vec![MIB, MIB + 1, 2 * MIB + 5] };
             for (j, n) in sizes.into_iter().enumerate() {
+                // long random periods give balanced buckets, so that a hash (not an error) is the outcome
                 let pat = match j % 3 {
-                    0 => vec![0xa4, 0x0e],
-                    1 => vec![1, 2, 3],
-                    _ => rng.bytes(4),
+                    0 => rng.bytes(61),
+                    1 => rng.bytes(47),
+                    _ => vec![0xa4, 0x0e],
                 };
-                let mut script = if j % 2 == 0 {
-                    vec![Step::Deliver(usize::MAX); 8]
-                } else {
-                    random_script(rng, n, MIB, 0)
+                let mut script = match j % 3 {
+                    0 => random_script(rng, n, MIB / 3, 0),
+                    1 => random_script(rng, n, MIB, 0),
+                    _ => vec![Step::Deliver(usize::MAX); 8],
                 };
                 if with_interrupts {
                     script.insert(1, Step::Interrupt);
@@ -267,9 +268,9 @@ fn files(out: &mut Out, rng: &mut Rng, thorough: bool, only: Option<&str>) {
         }
         let sizes: Vec<usize> = if thorough { vec![0, 100, MIB - 1, MIB, MIB + 1, 3 * MIB + 7] } else { vec![0, 100, MIB, MIB + 1] };
         for n in sizes {
-            let pat = rng.bytes(3);
+            let pat = rng.bytes(53);
             let path = std::path::PathBuf::from(format!("{}/f-{}-{}-{}.bin", dir, std::process::id(), v.name(), n));
-            let data: Vec<u8> = (0..n).map(|i| pat[i % 3]).collect();
+            let data: Vec<u8> = (0..n).map(|i| pat[i % 53]).collect();
             std::fs::write(&path, &data).expect("write temp file");
             let o = v.hash_file(&path);
             let _ = std::fs::remove_file(&path);
